@@ -10,8 +10,8 @@ From Trion Require Import Text.Types Expr.I64 Expr.EvalModel
 Import ListNotations.
 Open Scope N_scope.
 
-Lemma reg_not_sys r s' : sysl (reg_name r) = Some s' -> False.
-Proof. destruct r; vm_compute; discriminate. Qed.
+Lemma reg_not_sys : forall r s', sysl (reg_name r) = Some s' -> False.
+Proof. intros r s'. destruct r; vm_compute; discriminate. Qed.
 Lemma sys_not_reg s r : regl (sysreg_name s) = Some r -> False.
 Proof. destruct s; vm_compute; discriminate. Qed.
 
